@@ -75,7 +75,7 @@ CLAIMS = {
              "(y_true, y_pred) in that order and each constructor option under the function's own keyword.",
         note="machine arithmetic treated as mathematical (float64 rounding, overflow, NaN not decided); sklearn aggregates "
              "(mean_absolute_error, median_absolute_error, np.average / np.median / np.mean, _weighted_percentile, gmean, np.sqrt) are "
-             "external: recorded with their arguments, not interpreted; _weighted_geometric_mean is an ASSUMED contract; the "
+             "external: recorded with their arguments, not interpreted; _weighted_geometric_mean: formula verified with log / exp uninterpreted and np.sum recorded (weights summing to zero excluded), an opaque function of its arguments at call sites; the "
              "asymmetric / squared scaled errors and relative_loss are covered by the bounded native tier (190k cases quick) only",
         technique="contract-based deductive verification: AST->VC generation (pyvc) + z3 (nonlinear real arithmetic)",
         design="6/C06"),
